@@ -65,7 +65,13 @@ func addrC19(free int) []byte {
 		copy(a, vrt.Bytes("ip", 16))
 		return a
 	}
-	switch vrt.Choose("family", 3) {
+	return addrClassC19(free, vrt.Choose("family", 3))
+}
+
+// addrClassC19: an address of the given prefix class (0, 1, 2 as above), last `free` (< 16) bytes symbolic
+func addrClassC19(free, class int) []byte {
+	a := make([]byte, 16)
+	switch class {
 	case 1:
 		a[10], a[11] = 0xff, 0xff
 	case 2:
@@ -90,34 +96,54 @@ func VerifC19_membershipWide() { runC19(vrt.Param("FREE", 4)) }
 func runC19(free int) {
 	np := vrt.Range("pairs", 0, vrt.Param("NP", 2))
 	ns := vrt.Range("singles", 0, vrt.Param("NS", 1))
-	set, err := hash_set.NewHashSet(ns+1, IP_LENGTH, true, hashC19)
-	vrt.Assert(err == nil, "C19/new")
-	items := &IPItems{ipSet: set, items: make(ipPairs, 0, np)}
-
 	starts := make([][]byte, np)
 	ends := make([][]byte, np)
-	zeroStart, zeroEnd := false, false
 	for i := 0; i < np; i++ {
 		s, e := addrC19(free), addrC19(free)
 		// what checkIPPair admits: start <= end, both IPv4 or both not
 		vrt.Assume(le16C19(s, e) && isV4C19(s) == isV4C19(e))
 		starts[i], ends[i] = s, e
-		zeroStart = zeroStart || isZero16C19(s)
-		zeroEnd = zeroEnd || isZero16C19(e) || (isV4C19(e) && e[12] == 0 && e[13] == 0 && e[14] == 0 && e[15] == 0)
-		// the table gets its own copies
-		vrt.Assert(items.InsertPair(net.IP(append([]byte{}, s...)), net.IP(append([]byte{}, e...))) == nil, "C19/insert-pair")
 	}
 	singles := make([][]byte, ns)
 	for i := 0; i < ns; i++ {
-		a := addrC19(free)
-		singles[i] = a
-		vrt.Assert(items.InsertSingle(net.IP(append([]byte{}, a...))) == nil, "C19/insert-single")
+		singles[i] = addrC19(free)
+	}
+	loadAndCheckC19(starts, ends, nil, nil, singles, addrC19(free), false)
+}
+
+// isZeroEndC19: the address is :: or 0.0.0.0 (::ffff:0.0.0.0) - as a range end this is the in-band marker
+// of a merged-away entry.
+func isZeroEndC19(e []byte) bool {
+	return isZero16C19(e) || (isV4C19(e) && e[12] == 0 && e[13] == 0 && e[14] == 0 && e[15] == 0)
+}
+
+// ipC19 hands an address to the code under test: a private copy, in the 4-byte net.IP form if four.
+func ipC19(a []byte, four bool) net.IP {
+	if four {
+		return net.IP(append([]byte{}, a[12:16]...))
+	}
+	return net.IP(append([]byte{}, a...))
+}
+
+// loadAndCheckC19 loads the ranges [starts[i], ends[i]] and the singles (all given as 16-byte reference
+// forms; f4s[i] / f4e[i] (may be nil): the bound is handed over as a 4-byte net.IP) through the real
+// InsertPair/InsertSingle/Sort/Update and compares Search(probe) with the membership predicate.
+func loadAndCheckC19(starts, ends [][]byte, f4s, f4e []bool, singles [][]byte, probe []byte, probe4 bool) {
+	np, ns := len(starts), len(singles)
+	set, err := hash_set.NewHashSet(ns+1, IP_LENGTH, true, hashC19)
+	vrt.Assert(err == nil, "C19/new")
+	items := &IPItems{ipSet: set, items: make(ipPairs, 0, np)}
+	for i := 0; i < np; i++ {
+		a4, b4 := f4s != nil && f4s[i], f4e != nil && f4e[i]
+		vrt.Assert(items.InsertPair(ipC19(starts[i], a4), ipC19(ends[i], b4)) == nil, "C19/insert-pair")
+	}
+	for i := 0; i < ns; i++ {
+		vrt.Assert(items.InsertSingle(ipC19(singles[i], false)) == nil, "C19/insert-single")
 	}
 	items.Sort()
 	table := NewIPTable()
 	table.Update(items)
 
-	probe := addrC19(free)
 	want := false
 	for i := 0; i < np; i++ {
 		if le16C19(starts[i], probe) && le16C19(probe, ends[i]) {
@@ -129,10 +155,96 @@ func runC19(free int) {
 			want = true
 		}
 	}
-	// Known defect classes: "::" / "0.0.0.0" as a range end is the in-band marker for "merged away",
-	// and a range starting at "::" ties with those markers when the merged list is re-sorted and cut.
-	vrt.Known("C19-zero-end-range-not-merged", zeroEnd)
+	// Known defect classes: "::" / "0.0.0.0" as a range end is the in-band marker for "merged away".
+	// (1) a loaded range [z, z] with z = :: or 0.0.0.0 is taken for such a marker and never merged with
+	//     another loaded range that contains z: the table keeps overlapping entries;
+	// (2) a range that starts at :: (and does not end there) ties with the markers when the merged list is
+	//     re-sorted and cut.
+	// A range [z, z] that no other range overlaps is handled correctly and is outside both classes.
+	zeroEndOverlap, zeroStart := false, false
+	for i := 0; i < np; i++ {
+		for j := 0; j < np; j++ {
+			if j != i && isZeroEndC19(ends[i]) && le16C19(starts[j], ends[i]) && le16C19(ends[i], ends[j]) {
+				zeroEndOverlap = true
+			}
+		}
+		if isZero16C19(starts[i]) && !isZero16C19(ends[i]) {
+			zeroStart = true
+		}
+	}
+	vrt.Known("C19-zero-end-range-not-merged", zeroEndOverlap)
 	vrt.Known("C19-range-starting-at-zero-lost-after-merge", zeroStart)
-	got := table.Search(net.IP(probe))
+	got := table.Search(ipC19(probe, probe4))
 	vrt.Assert(got == want, "C19/membership")
+}
+
+// VerifC19_zeroRange: the range [z, z] with z = :: or 0.0.0.0 (legal input, and also the value the merge step
+// writes into merged-away entries) loaded together with NP-1 symbolic ranges (so that merges can happen
+// elsewhere in the table), then a symbolic probe.
+func VerifC19_zeroRange() {
+	free := vrt.Param("FREE", 1)
+	np := vrt.Param("NP", 3)
+	starts := make([][]byte, np)
+	ends := make([][]byte, np)
+	z := make([]byte, 16)
+	if vrt.Choose("zero", 2) == 1 {
+		z[10], z[11] = 0xff, 0xff
+	}
+	starts[0], ends[0] = z, z
+	// SAMECLASS=1: the other ranges all lie in one prefix class (chosen once), otherwise every bound chooses
+	class := -1
+	if vrt.Param("SAMECLASS", 0) == 1 {
+		class = vrt.Choose("family", 3)
+	}
+	for i := 1; i < np; i++ {
+		var s, e []byte
+		if class >= 0 {
+			s, e = addrClassC19(free, class), addrClassC19(free, class)
+		} else {
+			s, e = addrC19(free), addrC19(free)
+		}
+		vrt.Assume(le16C19(s, e) && isV4C19(s) == isV4C19(e))
+		starts[i], ends[i] = s, e
+	}
+	loadAndCheckC19(starts, ends, nil, nil, nil, addrC19(free), false)
+}
+
+// addrV4C19: an IPv4-mapped address ::ffff:0.0.x.y with the last `free` (<= 4) bytes symbolic
+func addrV4C19(free int) []byte {
+	a := make([]byte, 16)
+	a[10], a[11] = 0xff, 0xff
+	copy(a[16-free:], vrt.Bytes("ip4", free))
+	return a
+}
+
+// VerifC19_fourByte: IPv4 ranges and probes in the 4-byte net.IP form (net.IP{a,b,c,d}, ip.To4(),
+// net.IPNet.IP ...): 1..NP IPv4 ranges whose bounds are handed to InsertPair as 4-byte or 16-byte slices
+// (chosen per range, or per bound with PERBOUND=1), then a probe of any family, an IPv4 probe as 4-byte or 16-byte slice.
+func VerifC19_fourByte() {
+	free := vrt.Param("FREE", 1)
+	np := vrt.Range("pairs", 1, vrt.Param("NP", 2))
+	starts := make([][]byte, np)
+	ends := make([][]byte, np)
+	f4s := make([]bool, np)
+	f4e := make([]bool, np)
+	for i := 0; i < np; i++ {
+		s, e := addrV4C19(free), addrV4C19(free)
+		vrt.Assume(le16C19(s, e))
+		starts[i], ends[i] = s, e
+		// PERBOUND=1: the form is chosen per bound, otherwise per range
+		f4s[i] = vrt.Choose("form", 2) == 1
+		f4e[i] = f4s[i]
+		if vrt.Param("PERBOUND", 0) == 1 {
+			f4e[i] = vrt.Choose("form", 2) == 1
+		}
+	}
+	var probe []byte
+	probe4 := false
+	if vrt.Choose("probefamily", 2) == 1 {
+		probe = addrV4C19(free)
+		probe4 = vrt.Choose("form", 2) == 1
+	} else {
+		probe = addrC19(free)
+	}
+	loadAndCheckC19(starts, ends, f4s, f4e, nil, probe, probe4)
 }
